@@ -322,6 +322,15 @@ func registerOverrides(e *Engine) {
 		}
 		return nil
 	})
+	e.reg(zz+"ExpireDeadlines", func(in *interp, fr *frame, a []value) value {
+		in.sch.yield("cancel")
+		live := in.timedCtxs
+		in.timedCtxs = nil
+		for _, c := range live {
+			c.cancel(in, in.sentinel("context", "DeadlineExceeded"))
+		}
+		return nil
+	})
 	e.reg(zz+"Hold", func(in *interp, fr *frame, a []value) value { in.sch.held = true; return nil })
 	e.reg(zz+"Release", func(in *interp, fr *frame, a []value) value { in.sch.held = false; return nil })
 	e.reg(zz+"Stamp", func(in *interp, fr *frame, a []value) value {
